@@ -5,6 +5,7 @@ export GOFLAGS=-mod=mod GOPROXY=off GOSUMDB=off GOTOOLCHAIN=local
 cd /verif/gvc
 mkdir -p /verif/bin /verif/evidence /verif/replays
 go build -o /verif/bin/gvc .
+(cd /verif/axioms && go build -o /verif/bin/validate_axioms .)
 cd /repo
 go build -tags verif ./... >/dev/null 2>&1 || true
 echo "setup ok"
